@@ -85,6 +85,10 @@ def model(fem, cls, case, transform=None):
     E, nu = case["E"], case["nu"]
     if cls == "mixed-hexahedron":
         fc = fem.FieldsMixed(region, n=3)
+        if case["seed"] % 4 == 1:
+            # the same container built by hand: the pressure and the volume-ratio field share ONE dual region
+            pf = fem.FieldDual(region, values=0.0)
+            fc = fem.FieldContainer([fem.Field(region, dim=3), pf, fem.Field(pf.region, dim=1, values=1.0)])
         um = fem.ThreeFieldVariation(fem.NeoHooke(mu=E / (2 * (1 + nu)), bulk=E / (3 * (1 - 2 * nu))))
     elif "axisymmetric" in cls:
         fc = fem.FieldContainer([fem.FieldAxisymmetric(region, dim=2)])
@@ -156,7 +160,14 @@ def partition_model(fc, bounds):
     """independent partition: prescribed = union of the boundaries' unknowns and all unknowns of points without cells"""
     n = int(sum(fc.fieldsizes))
     f0 = fc.fields[0]
-    pres = [np.asarray(b.dof).ravel() for b in bounds.values()]
+    offs = np.concatenate([[0], np.cumsum(fc.fieldsizes)])
+    # (a boundary numbers the unknowns of ITS field; fields are told apart by their values array, also on a copied container)
+    pres = []
+    for b in bounds.values():
+        j = next((j_ for j_, f_ in enumerate(fc.fields) if f_ is b.field), None)
+        if j is None:
+            j = next(j_ for j_, f_ in enumerate(fc.fields) if f_.values.shape == b.field.values.shape and f_.dim == b.field.dim and (j_ == 0) == (b.field.dim == f0.dim))
+        pres.append(np.asarray(b.dof).ravel() + offs[j])
     orph = np.setdiff1d(np.arange(f0.region.mesh.npoints), np.unique(f0.region.mesh.cells))
     pres.append((orph[:, None] * f0.dim + np.arange(f0.dim)[None, :]).ravel())
     dof0 = np.unique(np.concatenate(pres)).astype(int)
@@ -180,6 +191,13 @@ def check(cls, case, rec):
     # workflow); the items keep containers of their own
     xg = fc.copy() if case["seed"] % 4 == 3 else None
     bounds = boundaries(fem, xg if xg is not None else fc, Xref, case, dim)
+    if cls == "mixed-hexahedron" and case["seed"] % 4 == 1 and xg is None:
+        # the pressure held in every second cell: a boundary on the SECOND field only (its twin on the same region stays free; the
+        # volume ratio of those cells keeps its own stiffness, so the massless block stays regular)
+        mJ = np.zeros(fc.fields[1].values.shape[0], bool)
+        mJ[::2] = True
+        bounds["pre"] = fem.Boundary(fc.fields[1], mask=mJ)
+        rec.label("boundary-on-one-of-two-fields-that-share-a-region")
     rho = case["rho"]
     body = new_body(fem, um, fc, rho)
     k = case["k"]
